@@ -272,8 +272,12 @@ def obs_of_value(t):
     return ("other", "term:" + type(t).__name__)
 
 
+HISTORY = []     # every arithmetic goal evaluated in this process, in order
+
+
 def observe_is(e):
     from problog.logic import Term
+    HISTORY.append(("is", e))
     st, r = query(Term("is", None, to_term(e)))
     if st == "exc":
         return obs_of_exc(r)
@@ -284,6 +288,7 @@ def observe_is(e):
 
 def observe_cmp(op, a, b):
     from problog.logic import Term
+    HISTORY.append(("cmp", op, a, b))
     st, r = query(Term(op, to_term(a), to_term(b)))
     if st == "exc":
         return ("err", obs_of_exc(r))
@@ -492,6 +497,273 @@ def spec_expected(e):
     return "see coq/theories/C16/IsoArith.v spec_eval"
 
 
+# ------------------------------------------------------------------ ISO reference with result TYPES (Python side)
+def py_ref(e):
+    """Value AND type ISO / SWI / YAP agree on: ("int", n) | ("flt", Fraction) | ("err",) | None (not judged).
+    Integer fragment as IsoArith.spec_eval (documented rem := mod); + - * unary- unary+ abs min max on
+    mixed operands (float as soon as one operand is a float); float/1, floor, ceiling, truncate of floats."""
+    if e[0] == "int":
+        return e
+    if e[0] == "flt":
+        from problog.logic import Constant
+        return ("flt", Fraction(Constant(e[1]).functor))
+    if e[0] != "app" or not e[2]:
+        return None
+    f = e[1].strip("'")
+    args = [py_ref(a) for a in e[2]]
+    if any(a is None for a in args):
+        return None
+    if any(a == ("err",) for a in args):
+        return ("err",)
+    allint = all(a[0] == "int" for a in args)
+
+    def num(v):
+        return ("int", v) if allint else ("flt", Fraction(v))
+    if len(args) == 2:
+        (tx, x), (ty, y) = args
+        if f == "+":
+            return num(x + y)
+        if f == "-":
+            return num(x - y)
+        if f == "*":
+            return num(x * y)
+        if f in ("min", "max"):
+            if x == y and tx != ty:
+                return None          # min(1, 1.0): SWI and YAP differ
+            return args[0] if ((x <= y) == (f == "min")) else args[1]
+        if not allint:
+            return None
+        if f in ("//", "mod", "rem", "div"):
+            if y == 0:
+                return ("err",)
+            if f == "//":
+                q = abs(x) // abs(y)
+                return ("int", q if (x < 0) == (y < 0) else -q)
+            if f == "div":
+                return ("int", x // y)
+            return ("int", x % y)
+        if f == "/\\":
+            return ("int", x & y)
+        if f == "\\/":
+            return ("int", x | y)
+        if f in ("xor", "#", "><"):
+            return ("int", x ^ y)
+        if f in ("<<", ">>", "^") and 0 <= y <= 4096:
+            return ("int", x << y if f == "<<" else x >> y if f == ">>" else x ** y)
+        return None
+    (tx, x), = args
+    if f == "-":
+        return (tx, -x)
+    if f == "+":
+        return (tx, x)
+    if f == "abs":
+        return (tx, abs(x))
+    if f == "float":
+        return ("flt", Fraction(x))
+    if tx == "int":
+        if f == "\\":
+            return ("int", ~x)
+        if f == "sign":
+            return ("int", (x > 0) - (x < 0))
+        return None
+    if f == "floor":
+        return ("int", x.numerator // x.denominator)
+    if f == "ceiling":
+        return ("int", -((-x.numerator) // x.denominator))
+    if f == "truncate":
+        return ("int", int(x))
+    return None
+
+
+def ref_agrees(exp, o):
+    if exp is None:
+        return True
+    if exp[0] == "err":
+        return o == ("arith",)
+    if exp[0] == "int":
+        return o == ("int", exp[1])
+    if o[0] != "flt":
+        return False
+    v = exp[1]
+    return abs(Fraction(o[1], o[2]) - v) <= Fraction(1, 10 ** 15) + abs(v) / 2 ** 50
+
+
+def show_ref(exp):
+    if exp is None:
+        return "?"
+    if exp[0] == "err":
+        return "an evaluation error"
+    return "%s %s" % ("integer" if exp[0] == "int" else "float", exp[1] if exp[0] == "int" else float(exp[1]))
+
+
+def show_obs(o):
+    if o[0] == "int":
+        return "integer %d" % o[1]
+    if o[0] == "flt":
+        return "float %r" % (o[1] / o[2])
+    return " ".join(str(x) for x in o)
+
+
+def show_goal(g):
+    return "X is " + show(g[1]) if g[0] == "is" else "%s %s %s" % (show(g[2]), g[1], show(g[3]))
+
+
+# ------------------------------------------------------------------ history dependence
+def tup(x):
+    return tuple(tup(y) for y in x) if isinstance(x, list) else x
+
+
+FRESH_SRC = r"""
+import sys, json, importlib
+sys.path.insert(0, %r)
+sys.path.insert(0, %r)
+C = importlib.import_module("props.C16")
+out = []
+for g in json.load(sys.stdin):
+    g = C.tup(g)
+    out.append(list(C.observe_is(g[1])) if g[0] == "is" else list(C.observe_cmp(g[1], g[2], g[3])))
+json.dump(out, sys.stdout)
+"""
+
+
+def fresh_eval(goals, timeout=600):
+    """Evaluate a goal sequence in a NEW Python process (empty caches); list of observations."""
+    import json
+    import subprocess
+    env = dict(os.environ, PYTHONPATH=vf.REPO, PYTHONHASHSEED="0")
+    src = FRESH_SRC % (os.path.join(vf.VERIF, "harness"), os.path.join(vf.VERIF, "gen"))
+    p = subprocess.run([sys.executable, "-W", "ignore", "-c", src], input=json.dumps(goals), env=env,
+                       stdout=subprocess.PIPE, stderr=subprocess.PIPE, text=True, timeout=timeout)
+    if p.returncode:
+        raise RuntimeError("fresh process failed: " + p.stderr[-1500:])
+    return [tup(o) for o in json.loads(p.stdout)]
+
+
+def shrink_history(prefix, g, alone):
+    """Smallest goal sequence [h..., g] (run in fresh processes) on which g's result differs from
+    its result when evaluated alone.  Binary search for the shortest prefix, then try the last
+    goal of that prefix on its own."""
+    lo, hi = 0, len(prefix)          # invariant: prefix[:hi] + [g] reproduces
+    while lo < hi:
+        mid = (lo + hi) // 2
+        if fresh_eval(prefix[:mid] + [g])[-1] != alone:
+            hi = mid
+        else:
+            lo = mid + 1
+    if hi == 0:
+        return [g]
+    h = prefix[hi - 1]
+    if fresh_eval([h, g])[-1] != alone:
+        return [h, g]
+    # several goals are needed: greedy removal inside the minimal prefix (bounded effort)
+    seq = list(prefix[:hi])
+    i, budget = 0, 40
+    while i < len(seq) and budget > 0:
+        cand = seq[:i] + seq[i + 1:]
+        budget -= 1
+        if fresh_eval(cand + [g])[-1] != alone:
+            seq = cand
+        else:
+            i += 1
+    return seq + [g]
+
+
+def report_history(ctx, prefix, g, got, why):
+    """`g` gave `got` after the goals of `prefix` in this process.  Decide, with fresh processes,
+    whether that depends on the history; report a shrunk goal sequence.  Returns True when handled."""
+    st = ctx._c16_hist
+    st["suspects"] += 1
+    ctx.count("history:suspect goals")
+    if st["confirmed"] >= 2 or st["checked"] >= 6:
+        return st["confirmed"] > 0     # enough replays written; the rest is counted
+    st["checked"] += 1
+    alone = fresh_eval([g])[-1]
+    if alone == got:
+        return False                   # not history dependent: a plain violation, handled by the caller
+    seq = shrink_history(list(prefix), g, alone)
+    res = fresh_eval(seq)
+    st["confirmed"] += 1
+    exp = py_ref(g[1]) if g[0] == "is" else None
+    what = ("is/2 is not a function of its argument: in one process, after %s, the goal `%s` gives %s; evaluated alone it gives %s"
+            % ("; ".join("`%s`" % show_goal(h) for h in seq[:-1]), show_goal(g), show_obs(res[-1]), show_obs(alone)))
+    if exp is not None:
+        what += " (ISO/SWI/YAP: %s)" % show_ref(exp)
+    ctx.violation(what, {"goals": [show_goal(h) for h in seq], "goal_terms": seq, "observed_sequence": [list(r) for r in res],
+                         "observed_alone": list(alone), "expected": show_ref(exp), "found_by": why,
+                         "how": "evaluate the goals in this order with one DefaultEngine / one Python process"},
+                  klass=None)
+    return True
+
+
+def twin_values():
+    out = []
+    for n in (-3, -1, 0, 1, 2, 3, 5, 12):
+        out.append((I(n), F(float(n))))
+    return out
+
+
+def run_history(ctx):
+    """Interleaved numerically-equal int/float operand tuples, both orders, one process/engine:
+    the result (value and TYPE) of a goal must not depend on what was evaluated before."""
+    ctx._c16_hist = {"suspects": 0, "checked": 0, "confirmed": 0}
+    tw = twin_values()
+    seq = []
+    for f in ["*", "+", "-", "min", "max", "mod", "//", "**", "/"]:
+        for (xi, xf) in tw:
+            for (yi, yf) in tw[2:6]:
+                seq += [("is", A(f, xf, yi)), ("is", A(f, xi, yi)), ("is", A(f, xi, yf)), ("is", A(f, xf, yf))]
+    for f in ["-", "+", "abs", "sign", "float", "integer", "truncate", "floor", "ceiling", "round", "sqrt", "exp"]:
+        for (xi, xf) in tw:
+            seq += [("is", A(f, xf)), ("is", A(f, xi))]
+    seq += [("is", A("*", I(12), I(5))), ("is", A("*", I(12), F(5.0))), ("is", A("+", A("*", F(2.0), I(3)), I(1))),
+            ("is", A("+", A("*", I(2), I(3)), I(1))), ("cmp", "=:=", A("*", I(2), I(3)), F(6.0)), ("cmp", "<", A("*", F(2.0), I(3)), I(7))]
+    # this process (caches as left by nothing: run_history is the first thing evaluated), forward order
+    fwd = []
+    for g in seq:
+        fwd.append(observe_is(g[1]) if g[0] == "is" else observe_cmp(g[1], g[2], g[3]))
+        ctx.case(("history", g), True, sample={"goal": show_goal(g), "observed": list(fwd[-1])})
+        ctx.count("history:goals")
+    try:
+        rev = fresh_eval(list(reversed(seq)))[::-1]
+    except (RuntimeError, OSError, ValueError) as ex:
+        ctx.broken.append("harness:fresh-process evaluation failed (history test)")
+        ctx.notes.append(str(ex))
+        return
+    ndiff = 0
+    for i, g in enumerate(seq):
+        exp = py_ref(g[1]) if g[0] == "is" else None
+        if fwd[i] != rev[i]:
+            ndiff += 1
+            ctx.count("history:result differs between evaluation orders")
+            # which of the two orders is the history-dependent one is decided by the alone-run inside
+            if not report_history(ctx, seq[:i], g, fwd[i], "forward/reverse order comparison"):
+                report_history(ctx, list(reversed(seq[i + 1:])), g, rev[i], "forward/reverse order comparison")
+        elif exp is not None and not ref_agrees(exp, fwd[i]) and fwd[i][0] not in ("raw", "other"):
+            judge_failure(ctx, seq[:i], g[1], fwd[i], exp)
+    ctx.cov["history_goals"] = len(seq)
+    ctx.cov["history_order_dependent_goals"] = ndiff
+
+
+def judge_failure(ctx, prefix, e, o, exp):
+    """A goal whose value or TYPE differs from the ISO reference."""
+    g = ("is", e)
+    try:
+        if report_history(ctx, prefix, g, o, "ISO value/type reference"):
+            return
+    except (RuntimeError, OSError, ValueError) as ex:
+        ctx.notes.append("fresh-process check failed: " + str(ex)[-500:])
+    w, wo = e, o
+    for c in shrink_candidates(e):
+        co = observe_is(c)
+        ce = py_ref(c)
+        if ce is not None and not ref_agrees(ce, co):
+            w, wo, exp = c, co, ce
+            break
+    report(ctx, ctx._c16_seen, classify_spec(w, wo),
+           "X is %s gives %s; ISO/SWI/YAP give %s" % (show(w), show_obs(wo), show_ref(exp)),
+           {"goal": "X is " + show(w), "expr": w, "observed": list(wo), "expected": show_ref(exp), "from": show(e)})
+
+
 # ------------------------------------------------------------------ the arithmetic tie
 def report(ctx, seen, klass, what, replay):
     """One violation per class (plus every unclassified one, up to a cap); the rest is counted."""
@@ -521,6 +793,7 @@ def run_arith(ctx, info):
             uniq.append((e, fam))
     cases = uniq
     model_lines, spec_lines, metas = [], [], []
+    pyjudge = []
     seen = ctx._c16_seen
     for e, fam in cases:
         if not coq_safe(e):
@@ -548,10 +821,20 @@ def run_arith(ctx, info):
                 continue     # outside the model's observation type (reported above)
         exact = fam in ("int1", "flt1", "int2", "flt2", "mixed2", "rand_exact", "rand_int", "large2", "shiftpow") \
             and small_leaves(e) and not any(s[0] == "app" and s[1].strip("'") in ("/", "**", "^", "epsilon", "pi", "e") for s in subterms(e))
+        exp = py_ref(e)
+        if exp is not None and not ref_agrees(exp, o) and o[0] != "raw":
+            pyjudge.append((len(HISTORY) - 1, e, o, exp))
         model_lines.append("%s %s %s" % ("x" if exact else "m", to_tok(e), obs_tok(o)))
         spec_lines.append("s %s %s" % (to_tok(e), obs_tok(o)))
         metas.append((e, o, fam))
     ctx.log("arith: %d goals observed; running the extracted model and ISO reference" % len(metas))
+    # property-level judge (Python reference: value and result type); needs no Coq artefact
+    ctx.cov["arith_python_reference_violating_goals"] = len(pyjudge)
+    hist = list(HISTORY)
+    for hi, e, o, exp in pyjudge[:200]:
+        judge_failure(ctx, hist[:hi], e, o, exp)
+    for hi, e, o, exp in pyjudge[200:]:
+        ctx.count("violating:(not examined, after 200 judged failures)")
     try:
         bad_model = ask(ctx, model_lines)
         bad_spec = ask(ctx, spec_lines)
@@ -559,6 +842,8 @@ def run_arith(ctx, info):
         ctx.broken.append("correspondence:C16 extracted arithmetic model does not build / run")
         ctx.notes.append(str(ex))
         return
+    already = set(e for _, e, _, _ in pyjudge)
+    bad_spec = [i for i in bad_spec if metas[i][0] not in already]
     ctx.cov["arith_model_vs_engine_agree"] = len(metas) - len(bad_model)
     ctx.cov["arith_spec_checked"] = len(metas)
     for i in bad_model[:8]:
@@ -716,26 +1001,61 @@ def run(ctx):
                         "libm functions (exp, log, sin, ..., atan2, pow) are named opaque entries: kinds of outcome checked, no value theorem",
                         "engine.functions (user-defined arithmetic functions) is empty, as in DefaultEngine()",
                         "reference = ISO 13211-1 integer semantics as written in IsoArith.v (SWI-Prolog / YAP not installed)"]
-    info = generate(ctx)
-    ok = ctx.prove("C16/Props.v")
-    if ok and ctx.tier == "thorough":
-        ctx.coqchk("PL.C16.Props")
-    compile_findings(ctx)
+    # The judge below must run whatever happens to the translators / proofs: a code change the
+    # translator does not understand is recorded as a broken obligation, and the real engine is
+    # still judged against the ISO reference.
+    ctx._c16_seen = {}
+    try:
+        run_history(ctx)               # first: nothing has been evaluated in this process yet
+    except Exception as ex:            # noqa
+        import traceback
+        ctx.broken.append("harness:history test raised %s" % type(ex).__name__)
+        ctx.notes.append(traceback.format_exc())
+    info = None
+    try:
+        info = generate(ctx)
+    except Exception as ex:            # noqa  (TranslationError of either translator, OSError, SyntaxError)
+        ctx.broken.append("translator:%s: %s" % (type(ex).__name__, str(ex)[:300]))
+        ctx.notes.append("translator failed; Gen*.v are stale, proofs NOT re-checked against the current source: " + str(ex)[:1500])
+    if info is not None:
+        ok = ctx.prove("C16/Props.v")
+        if ok and ctx.tier == "thorough":
+            ctx.coqchk("PL.C16.Props")
+        compile_findings(ctx)
+    else:
+        # obligations exist but cannot be discharged for this source
+        import re as _re
+        with open(os.path.join(vf.THEORIES, "C16", "Props.v")) as fh:
+            ctx.cov["obligations"] += len(_re.findall(r"(?m)^\s*Theorem\s", vf.strip_coq_comments(fh.read())))
+        info = live_table_info()
+        ctx.cov["translator"] = {"failed": True, "keys_from_live_table": len(info["keys"])}
     if ctx.replay:
         r = ctx.replay.get("replay", {})
+        if "goal_terms" in r:
+            seq = [tup(g) for g in r["goal_terms"]]
+            ctx.log("replay (fresh process): %r" % (list(zip([show_goal(g) for g in seq], fresh_eval(seq))),))
         if "expr" in r:
-            def tup(x):
-                return tuple(tup(y) for y in x) if isinstance(x, list) else x
             e = tup(r["expr"])
             ctx.log("replay: X is %s -> %r (recorded %r)" % (show(e), observe_is(e), r.get("observed")))
-    ctx._c16_seen = {}
-    run_probes(ctx)
-    run_arith(ctx, info)
-    run_cmp(ctx)
-    try:
-        import importlib
-        b = importlib.import_module("c16_builtins")
-    except ImportError:
-        b = None
-    if b is not None:
-        b.run_builtins(ctx)
+    for step in (lambda: run_probes(ctx), lambda: run_arith(ctx, info), lambda: run_cmp(ctx), lambda: run_builtin_part(ctx)):
+        try:
+            step()
+        except Exception as ex:        # noqa: one failing part must not hide the others
+            import traceback
+            ctx.broken.append("harness:%s in a part of the C16 check" % type(ex).__name__)
+            ctx.notes.append(traceback.format_exc())
+
+
+def run_builtin_part(ctx):
+    import importlib
+    importlib.import_module("c16_builtins").run_builtins(ctx)
+
+
+def live_table_info():
+    """Fallback when the translator refuses the source: the keys of the live table."""
+    import math
+    from problog.logic import _arithmetic_functions
+    keys = [k for k in _arithmetic_functions if isinstance(k, tuple) and len(k) == 2 and isinstance(k[0], str) and k[1] in (0, 1, 2)]
+    opaque = [k for k in keys if getattr(_arithmetic_functions[k], "__module__", None) == "math"
+              and _arithmetic_functions[k] not in (math.floor, math.ceil, math.trunc)]
+    return {"keys": keys, "opaque": opaque, "duplicates": [], "caught": []}
